@@ -493,6 +493,26 @@ def c18_streams(seed, tier):
                 lines = [f"umod dlerp {q(speed)}", f"utick {q(d)} 1"]
                 lines += [f"uapply {tgt}"] * 3 + ["uapply 1:0"] * 2
                 scs.append([f"scenario c18u{i}"] + lines + ["endscenario"]); i += 1
+    # DeltaLerp histories that approach a target until the snap branch triggers (distance < 1/100 without being equal), then
+    # move on: exact with alpha in {1/2, 1} (one more mantissa bit per halving step; at most 12 of them per chain)
+    fine = [Fr(k, 128) for k in range(-4, 5)] + [Fr(1), Fr(-1), Fr(2), Fr(1, 2)]
+    for t1 in ("1:1", "2:1,-1", "3:1/2,1,-1", "b1"):
+        for t2 in ("1:2", "1:3/2", "2:2,0", "1:0", "1:1"):
+            lines = ["umod dlerp 8", "utick 1/16 1"] + [f"uapply {t1}"] * 9 + [f"uapply {t2}"] * 3
+            scs.append([f"scenario c18u{i}"] + lines + ["endscenario"]); i += 1
+    for k in range(40 if tier == "quick" else 1500):
+        lines = ["umod dlerp 8"]
+        halvings = 0
+        base = r.choice([Fr(0), Fr(1), Fr(-1, 2), Fr(1, 4)])
+        for _ in range(r.randint(3, 9)):
+            half = r.random() < 0.6 and halvings < 12
+            lines.append("utick 1/16 1" if half else "utick 1/8 1")
+            halvings += half
+            tgt = base + r.choice(fine) if r.random() < 0.8 else r.choice(fine)
+            if r.random() < 0.3:
+                base = tgt
+            lines.append(f"uapply 1:{q(tgt)}")
+        scs.append([f"scenario c18u{i}"] + lines + ["endscenario"]); i += 1
     # AccumulateBy with the referenced action in every state / absent
     for st in (None, 0, 1, 2):
         lines = ["umod accby 1"]
@@ -534,6 +554,27 @@ def c19_compass(prefix):
                           "padaxis 0 0 1/2", "frame", "padaxis 0 1 -1/4", "frame", "padaxis 0 2 1", "padaxis 0 3 3/4", "frame",
                           "padaxis 0 0 0", "padaxis 0 1 0", "frame", "endscenario"]
                 out.append(lines)
+    # rich fields: keys carrying their own swizzle, raw gamepad axes / buttons and nested stick presets as preset fields
+    script = ["pad+ 0", "spawn 0", "insert 0 0 0", "frame"]
+    for k in (0, 1, 2, 3, 6, 7):
+        script += [f"key {k} 1", "frame", f"key {k} 0", "frame"]
+    for x, v in ((0, "1/2"), (1, "-1/4"), (2, "1"), (3, "3/4"), (0, "-1"), (1, "1")):
+        script += [f"padaxis 0 {x} {v}", "frame"]
+    script += ["padbtn 0 0 1", "frame", "padbtn 0 1 1", "frame", "padbtn 0 0 0", "padbtn 0 1 0", "frame"]
+    for x in range(4):
+        script.append(f"padaxis 0 {x} 0")
+    script += ["frame", "endscenario"]
+    for route in (0, 1, 2, 3):
+        for card in ("y0:0 y1:0 y2:0 y3:0", "s0 s1 s1 s0", "x0 x1 x2 x3", "b0 y1:0 x3 s0", "x1 s1 b1 y0:0"):
+            for bid in ("y6:0 y7:0", "s0 s1", "x1 x3", "b0 s1", "6:0 y7:0"):
+                for a in (2, 3):
+                    lines = [f"scenario {prefix}{i}", "ctx 0 0 any", f"act {a}"]
+                    i += 1
+                    if route:
+                        lines.append(f"route {route}")
+                    lines.append("preset cardinal " + card)
+                    lines += [f"act {a + 4}"] + ([f"route {route}"] if route else []) + ["preset bidir " + bid]
+                    out.append(lines + script)
     return out
 
 
